@@ -95,6 +95,8 @@ func handle(p []string) (res string) {
 		return opUnmarshal(p[1:])
 	case "autogen":
 		return opAutogen(p[1:])
+	case "untrusted":
+		return opUntrusted(p[1:])
 	case "hist":
 		return opHist(p[1:])
 	case "frame":
